@@ -121,6 +121,10 @@ func noValueComparison(p *core.Program, fn *ssa.Function) (bool, string) {
 
 func runSeq(p *core.Program, r *core.Report, queue bool) {
 	c := rc{p, r}
+	if queue {
+		workOnEveryPath(c, "queue.(*Queue).Clear", "items reset on every path", "Queue", "items", nil, "Clear returns on a path that leaves the elements in place")
+		workOnEveryPath(c, "queue.(*LQueue).Clear", "counter reset on every path", "LQueue", "n", nil, "Clear returns on a path that leaves the elements in place")
+	}
 	pkg, sl, ln := "stack", "Stack", "LStack"
 	add, rem, file1, file2 := "Push", "Pop", "stack/stack.go", "stack/lstack.go"
 	if queue {
@@ -453,6 +457,18 @@ func runSeq(p *core.Program, r *core.Report, queue bool) {
 			}
 			if bc, isC := path.BoolConst(path.ReturnValues(ret)[0]); isC && !bc {
 				c.ob("PT5", fname, "false only after the whole scan", p.InstrPos(ret), !path.InCycle(b) && onlyViaLoopHeader(fn, b), "Search returns false from inside the scan loop: later elements are not examined")
+			}
+			if bc, isC := path.BoolConst(path.ReturnValues(ret)[0]); isC && bc {
+				// true only on the edge where a held element compared equal to the probe
+				atMatch := false
+				for _, pr := range b.Preds {
+					if iff := path.BlockIf(pr); iff != nil && len(b.Preds) == 1 && pr.Succs[0] == b {
+						if bo, ok := iff.Cond.(*ssa.BinOp); ok && bo.Op == token.EQL && (bo.X == ssa.Value(probe) || bo.Y == ssa.Value(probe)) {
+							atMatch = true
+						}
+					}
+				}
+				c.ob("PT5", fname, "true only for a match", p.InstrPos(ret), atMatch, "Search answers true on a path other than the edge on which a held element compared equal to the probe")
 			}
 		}
 	}
